@@ -1,6 +1,6 @@
 \* spec mutation: running daemonset pods are not subtracted from the expected overhead
 CONSTANTS Catalogs = {1}  Limits = {0}  Daemons = {1}  Batches = {2}  Laters = {0}
-CONSTANTS MaxRounds = 3  MaxClaims = 3  MaxSteps = 7  Resyncs = {FALSE}  EphForms = {2}  StForms = {2}
+CONSTANTS MaxRounds = 3  MaxClaims = 3  MaxSteps = 7  AllowForeign = TRUE  Resyncs = {FALSE}  EphForms = {2}  StForms = {2}
 CONSTANTS W_NoSyncGate = FALSE  W_SubMin = FALSE  W_SubDominating = FALSE  W_StartupBlocks = FALSE  W_CountMarked = FALSE  W_ZeroSkips = FALSE  W_NoZeroFallback = FALSE  W_DaemonTwice = TRUE  W_SyncBeforeBatch = FALSE  C_NodesPerPass = FALSE  C_OverrideBase = FALSE
 SPECIFICATION Spec
 VIEW view
